@@ -272,6 +272,16 @@ impl Lowerer<'_, '_> {
                 let ptr_var = self.new_tmp(IrType::Pointer);
                 self.emit_constant_address(ptr_var.clone(), name);
 
+                if self.is_zero_sized_with_clone_drop(ty) {
+                    // A copy of a zero-sized constant still has to be cloned,
+                    // since the copy will be dropped as well.
+                    let ptr = self.zero_sized_place(ty);
+                    if let Some(clone_fn) = self.get_runtime_clone(ty) {
+                        self.emit_clone(ptr, ptr_var.into(), clone_fn);
+                    }
+                    return;
+                }
+
                 if let Some(to) = to {
                     self.call_clone_of(
                         to,
@@ -292,6 +302,13 @@ impl Lowerer<'_, '_> {
                     },
                     offset: x,
                 };
+                if self.is_zero_sized_with_clone_drop(ty) {
+                    let ptr = self.zero_sized_place(ty);
+                    if let Some(clone_fn) = self.get_runtime_clone(ty) {
+                        self.emit_clone(ptr.clone(), ptr, clone_fn);
+                    }
+                    return;
+                }
                 if let Some(to) = to {
                     self.call_clone_of(to, from, ty);
                 }
